@@ -57,18 +57,27 @@ fn value_class(v: &RV) -> &'static str {
 }
 
 fn check_text(acc: &mut Acc, sub: &str, rank: u64, text: &[u8], r: &PO) {
+    // the property quantifies over every way of handing the text to the parser: the slice
+    // source, and the stream source with its separately written scanners
+    check_text_src(acc, sub, rank, text, r, false);
+    check_text_src(acc, sub, rank, text, r, true);
+}
+
+fn check_text_src(acc: &mut Acc, sub: &str, rank: u64, text: &[u8], r: &PO, reader: bool) {
     acc.evals += 1;
     let o = r.to_lexpr();
-    let v = match guard(|| lexpr::from_slice_custom(text, o)) {
+    let first = if reader { guard(|| lexpr::from_reader_custom(text, o)) } else { guard(|| lexpr::from_slice_custom(text, o)) };
+    let v = match first {
         Ok(Ok(v)) => RV::from_value(&v),
         _ => return, // rejected (or panicking: C03's business)
     };
+    let reparse = |t: &str| if reader { guard(|| lexpr::from_reader_custom(t.as_bytes(), o)) } else { guard(|| lexpr::from_str_custom(t, o)) };
     acc.nontrivial += 1;
     acc.outcome(&(value_class(&v), v.nodes().min(6)));
     let val = v.to_value();
     for p in printers_for(r, &v) {
         let case = || json!({"input_hex": hex(text), "po": r.index(), "pr": p.index()});
-        let w = || format!("input={:?} parser=[{}] printer=[{}]", show_bytes(text), r.describe(), p.describe());
+        let w = || format!("source={} input={:?} parser=[{}] printer=[{}]", if reader { "reader" } else { "slice" }, show_bytes(text), r.describe(), p.describe());
         let cls = |k: &str| format!("{}:{}", k, value_class(&v));
         let t = match guard(|| lexpr::print::to_string_custom(&val, p.to_lexpr())) {
             Ok(Ok(t)) => t,
@@ -82,7 +91,7 @@ fn check_text(acc: &mut Acc, sub: &str, rank: u64, text: &[u8], r: &PO) {
             }
         };
         let expected = fold(&p, r, &v);
-        let v2 = match guard(|| lexpr::from_str_custom(&t, o)) {
+        let v2 = match reparse(&t) {
             Ok(Ok(g)) => RV::from_value(&g),
             Ok(Err(e)) => {
                 acc.violation(sub, "printed-form-not-readable", &cls("printed-form-not-readable"), rank, w(), format!("accepted value {} prints as {:?}, which the same parser rejects: {}", trunc(&v.to_string(), 120), trunc(&t, 120), e), case);
@@ -106,7 +115,7 @@ fn check_text(acc: &mut Acc, sub: &str, rank: u64, text: &[u8], r: &PO) {
                 continue;
             }
         };
-        match guard(|| lexpr::from_str_custom(&t2, o)) {
+        match reparse(&t2) {
             Ok(Ok(g)) => {
                 let v3 = RV::from_value(&g);
                 let strict = !v2.contains_float() || NOFAST;
